@@ -399,13 +399,23 @@ def made_formula_with_type_change(uas, cells, kind_of=None):
   the old data through the undo of the calculated values, which is applied while the column still has its new
   type - the restored values are coerced by that type (Int 0 -> False under Bool, ...) and stay that way when the
   column gets its old type back. True when every differing data cell lies in such a column."""
-  hit = set()
+  hit = {}
   for u in uas:
     if u[0] == 'ModifyColumn' and isinstance(u[3], dict) and u[3].get('isFormula') is True and 'type' in u[3]:
-      hit.add((u[1], u[2]))
+      hit[(u[1], u[2])] = u[3]['type']
   if kind_of is not None:
     cells = [x for x in cells if kind_of(x[0], x[1]) != 'formula']
-  return bool(cells) and bool(hit) and all((x[0], x[1]) in hit for x in cells)
+  if not cells or not hit:
+    return False
+  # Narrow on purpose: only the coercion actually observed on the pinned tree counts - a Bool column turns a
+  # restored 0/1 into false/true. Any other difference in such a column is reported as a violation.
+  for (t, c, r, before, after) in cells:
+    if hit.get((t, c)) != 'Bool':
+      return False
+    if not ((before in (0, 0.0) and not isinstance(before, str) and after == '#false') or
+            (before in (1, 1.0) and not isinstance(before, str) and after == '#true')):
+      return False
+  return True
 
 
 def undo_raised_sig(doc, uas, error, undo=None):
